@@ -119,14 +119,43 @@ class Engine:
     def feasible(self, pc):
         if not self.prune:
             return True
+        if pc:
+            # fast path: the newest conjunct is a (negated) uninterpreted Bool constant not otherwise constrained
+            c = pc[-1]
+            if z3.is_not(c):
+                c = c.arg(0)
+            if z3.is_const(c) and c.decl().kind() == z3.Z3_OP_UNINTERPRETED:
+                cid = c.get_id()
+                if not any(self._mentions(x, cid) for x in pc[:-1]):
+                    return True
         s = z3.Solver()
-        s.set("timeout", 300)
+        s.set("timeout", 150)
         s.add(*pc)
         r = s.check()
         if r == z3.unsat:
             self.stats["pruned"] += 1
             return False
         return True
+
+    def _mentions(self, expr, cid):
+        key = expr.get_id()
+        cache = self._solver_cache.setdefault("mentions", {})
+        ids = cache.get(key)
+        if ids is None:
+            ids = set()
+            stack = [expr]
+            while stack:
+                e = stack.pop()
+                i = e.get_id()
+                if i in ids:
+                    continue
+                ids.add(i)
+                if z3.is_app(e):
+                    stack.extend(e.children())
+                elif z3.is_quantifier(e):
+                    stack.append(e.body())
+            cache[key] = ids
+        return cid in ids
 
     def kind_sort(self, kind):
         if kind in KIND_SORT:
@@ -283,26 +312,23 @@ class Engine:
                 outs.append((s0, vals))
                 continue
             it = iter(vals)
-            parts, faithful, minlen = [], True, 0
+            parts, faithful = [], True
             for p in e.values:
                 if isinstance(p, ast.Constant):
                     parts.append(z3.StringVal(p.value))
-                    minlen += len(p.value)
                 else:
                     v = next(it)
                     if isinstance(v, Z) and v.kind == "str" and p.conversion == -1 and p.format_spec is None:
                         parts.append(v.t)
+                        faithful = faithful and v.tag != "fstr"
                     elif isinstance(v, Z) and v.kind == "int" and p.conversion == -1 and p.format_spec is None:
                         parts.append(self.int_to_str(v.t))
                     else:
+                        # the text of a formatted non-string value is abstracted; the literal parts are kept
+                        parts.append(z3.FreshConst(STR, "fmt"))
                         faithful = False
-            if faithful:
-                t = parts[0] if len(parts) == 1 else (z3.Concat(*parts) if parts else z3.StringVal(""))
-                outs.append((s0, Z("str", t)))
-            else:
-                f = z3.FreshConst(STR, "fstr")
-                s1 = s0.fork(z3.Length(f) >= minlen)
-                outs.append((s1, Z("str", f, tag="fstr")))
+            t = parts[0] if len(parts) == 1 else (z3.Concat(*parts) if parts else z3.StringVal(""))
+            outs.append((s0, Z("str", t, tag=None if faithful else "fstr")))
         return outs
 
     def int_to_str(self, t):
@@ -453,7 +479,7 @@ class Engine:
                 if isinstance(op, ast.Mult):
                     return [(st, Z("int", a.t * b.t))]
             if a.kind == b.kind and (a.kind == "str" or a.kind.startswith("seq:")) and isinstance(op, ast.Add):
-                return [(st, Z(a.kind, z3.Concat(a.t, b.t)))]
+                return [(st, Z(a.kind, z3.Concat(a.t, b.t), tag="fstr" if "fstr" in (a.tag, b.tag) else None))]
         if isinstance(a, Tup) and isinstance(b, Tup) and isinstance(op, ast.Add):
             return [(st, Tup(a.items + b.items, a.is_list))]
         if isinstance(a, Z) and a.kind.startswith("seq:") and isinstance(b, Tup) and isinstance(op, ast.Add):
@@ -462,6 +488,8 @@ class Engine:
             m = self.method_models.get("__or__")
             if m:
                 return m(self, st, a, [b], {}, node)
+        if isinstance(a, Z) and isinstance(b, Z) and a.kind == b.kind == "str" and isinstance(op, ast.Add):
+            return [(st, Z("str", z3.Concat(a.t, b.t), tag="fstr" if "fstr" in (a.tag, b.tag) else None))]
         # opaque arithmetic / string formatting on unknown values: pure, fresh result
         if isinstance(a, (Opaque,)) or isinstance(b, (Opaque,)) or (isinstance(a, Z) and a.tag == "fstr") or (isinstance(b, Z) and b.tag == "fstr"):
             if isinstance(a, Z) and a.kind == "str" or isinstance(b, Z) and b.kind == "str":
@@ -743,8 +771,11 @@ class Engine:
                 s1 = st.clone()
                 return [(s1, s1.alloc(ListObj(o.items[l:h])))]
             raise Unsupported("slice of symbolic list")
+        if isinstance(v, Z) and v.kind == "str" and v.tag == "fstr":
+            # a string whose text is abstracted (messages, reprs): its slices are abstracted too
+            return [(st, Z("str", z3.FreshConst(STR, "slice"), tag="fstr"))]
         if not (isinstance(v, Z) and (v.kind == "str" or v.kind.startswith("seq:"))):
-            if isinstance(v, Opaque) or (isinstance(v, Z) and v.tag == "fstr"):
+            if isinstance(v, Opaque):
                 return [(st, Opaque("slice"))]
             raise Unsupported(f"slice of {v}")
         n = z3.Length(v.t)
